@@ -240,3 +240,47 @@ func vDbg(a ...any) string {
 	}
 	return s
 }
+
+// twin of vh_C05_open_roundtrip: the chosen open is done through the real
+// Client + Server on a scratch directory and with package os on an identical
+// one, once with the file present and once with it missing; outcome category
+// and the file's resulting existence and content are compared.
+func vt_C05_open_roundtrip() {
+	kind, fl := vOpenChoice()
+	for _, present := range []bool{true, false} {
+		a, _ := os.MkdirTemp("", "verif-c05o-")
+		b, _ := os.MkdirTemp("", "verif-c05o-")
+		if present {
+			os.WriteFile(a+"/f", []byte("abc"), 0o644)
+			os.WriteFile(b+"/f", []byte("abc"), 0o644)
+		}
+		c, closeAll := vRealClient(a)
+		var cf *File
+		var of *os.File
+		var cerr, oerr error
+		switch kind {
+		case 0:
+			cf, cerr = c.OpenFile("f", fl)
+			of, oerr = os.OpenFile(b+"/f", fl&^os.O_APPEND, 0o644)
+		case 1:
+			cf, cerr = c.Open("f")
+			of, oerr = os.Open(b + "/f")
+		case 2:
+			cf, cerr = c.Create("f")
+			of, oerr = os.Create(b + "/f")
+		}
+		vAssert(vTCategory(cerr) == vRealCat(oerr), "open (real fs): same outcome category as package os"+vDbg(kind, fl, present, cerr, oerr))
+		if cf != nil {
+			cf.Close()
+		}
+		if of != nil {
+			of.Close()
+		}
+		ca, ea := os.ReadFile(a + "/f")
+		cb, eb := os.ReadFile(b + "/f")
+		vAssert((ea == nil) == (eb == nil) && string(ca) == string(cb), "open (real fs): the file exists / is truncated as with package os"+vDbg(kind, fl, present))
+		closeAll()
+		os.RemoveAll(a)
+		os.RemoveAll(b)
+	}
+}
